@@ -6,7 +6,11 @@ import vf
 from props.c01 import FlowRobust
 from props.flowprop import SEP, parse_dgram
 
-K_ALLOC, K0_ALLOC = 256, 32 * 1024      # bytes allocated <= K * octets + K0 (decode + JSON encode)
+K_ALLOC, K0_ALLOC = 256, 32 * 1024      # bytes allocated <= K * octets + K0 (decode + JSON encode) ...
+K_FIELD = 192                           # ... + K_FIELD per decoded field value: a record of a template with zero-length fields yields one
+                                        # value per field without consuming octets; there are at most as many records as octets, and the
+                                        # number of fields per record is a property of the template an EARLIER datagram announced (not of a
+                                        # length or count field of this one)
 
 
 class P(FlowRobust):
@@ -45,26 +49,28 @@ class P(FlowRobust):
         viol, worst, n = [], (0, ""), 0
         for l, r in zip(ml, res):
             for part in r.split(SEP):
-                m = re.match(r"R:(\d+) A:(\d+) T:(\d+) L:(\d+)", part)
+                m = re.match(r"R:(\d+) A:(\d+) T:(\d+) L:(\d+)(?: F:(\d+))?", part)
                 if not m:
                     if part in ("HANG", "PANIC"):
                         viol.append({"cases": [l], "verdict": "%s while measuring" % part})
                     continue
-                recs, alloc, ms, L = map(int, m.groups())
+                recs, alloc, ms, L = map(int, m.groups()[:4])
+                nf = int(m.group(5) or 0)
                 n += 1
-                ratio = alloc / (K_ALLOC * L + K0_ALLOC)
+                bound = K_ALLOC * L + K0_ALLOC + K_FIELD * nf
+                ratio = alloc / bound
                 if ratio > worst[0]:
                     worst = (ratio, "%d octets -> %d bytes allocated, %d records, %d ms" % (L, alloc, recs, ms))
-                if alloc > K_ALLOC * L + K0_ALLOC:
-                    viol.append({"cases": [l], "verdict": "a datagram of %d octets made the decoder allocate %d bytes (bound %d*len+%d)" % (L, alloc, K_ALLOC, K0_ALLOC)})
+                if alloc > bound:
+                    viol.append({"cases": [l], "verdict": "a datagram of %d octets (%d records, %d field values) made the decoder allocate %d bytes (bound %d*octets+%d+%d*values)" % (L, recs, nf, alloc, K_ALLOC, K0_ALLOC, K_FIELD)})
                 if recs > L:
                     viol.append({"cases": [l], "verdict": "a datagram of %d octets produced %d records" % (L, recs)})
                 if ms > 1000:
                     viol.append({"cases": [l], "verdict": "a datagram of %d octets took %d ms" % (L, ms)})
-        return {"violations": viol[:1], "coverage": {"measured_datagrams": n, "alloc_bound": "%d*octets+%d" % (K_ALLOC, K0_ALLOC), "worst_alloc_case": worst[1]}}
+        return {"violations": viol[:1], "coverage": {"measured_datagrams": n, "alloc_bound": "%d*octets+%d+%d*decoded field values" % (K_ALLOC, K0_ALLOC, K_FIELD), "worst_alloc_case": worst[1]}}
 
     def rule(self):
-        return FlowRobust.rule(self) + "; additionally every datagram is run once more under runtime.MemStats and a clock: TotalAlloc delta <= %d*octets+%d, records <= octets, < 1 s" % (K_ALLOC, K0_ALLOC)
+        return FlowRobust.rule(self) + "; additionally every datagram is run once more under runtime.MemStats and a clock: TotalAlloc delta <= %d*octets+%d+%d*decoded field values, records <= octets, < 1 s" % (K_ALLOC, K0_ALLOC, K_FIELD)
 
 
 PROP = P()
